@@ -42,13 +42,34 @@ class C01(EvalCheck):
         big = n > 2000
         for ti in range(n):
             small = (ti % 3 == 0)
-            t = gen_table(rng, ndim=(rng.choice([1, 1, 2, 2, 3]) if small else None), max_coefs=(120 if small else 30000 if big else 6000),
-                          coef_style=rng.choice(["rand", "posneg", "ones", "special"]), maxextra=(3 if small else 7))
+            classes = IN_CLASSES
+            if ti % 10 == 3:
+                # constant order 2 or 3 (the templated fixed-order cores), knots of multiplicity order / order+1, points ON them:
+                # there a basis function VANISHES while its one-sided derivative does not (and, at multiplicity order+1, the spline jumps)
+                t = gen_table(rng, ndim=rng.choice([2, 2, 3, 3, 4, 5]), max_coefs=6000, pattern=rng.choice(["c2", "c3"]),
+                              knot_style=rng.choice(["multi", "multi", "clamped"]), coef_style=rng.choice(["rand", "posneg"]), maxextra=5)
+                classes = ["repknot"] * 4 + ["knot", "mid", "rand", "full_hi"]
+            elif ti % 10 == 7:
+                # a long axis (dozens to hundreds of spans: lookups that take many bisection steps, or any shortcut for long
+                # axes) in a 1-d or 2-d table, with the knot layouts where a wrong span shows: order 0 or multiple knots
+                nd = rng.choice([1, 2])
+                t = gen_table(rng, ndim=nd, max_coefs=4000, pattern=rng.choice(["mixed", "const"]),
+                              knot_style=rng.choice(["uniform", "multi", "irregular", "repeated", "clamped"]),
+                              coef_style=rng.choice(["rand", "posneg"]), maxextra=(400 if nd == 1 else 60))
+                if rng.chance(0.5):
+                    d = rng.below(t.ndim)          # make one axis order 0 (piecewise constant: every wrong span shows)
+                    t.orders[d] = 0; t.naxes[d] = len(t.knots[d]) - 1
+                    nco = 1
+                    for na in t.naxes: nco *= na
+                    t.coefs = [to_f32(rng.unit() * 10 - 5) for _ in range(nco)]
+            else:
+                t = gen_table(rng, ndim=(rng.choice([1, 1, 2, 2, 3]) if small else None), max_coefs=(120 if small else 30000 if big else 6000),
+                              coef_style=rng.choice(["rand", "posneg", "ones", "special"]), maxextra=(3 if small else 7))
             if any(abs(c) > 1e30 for c in t.coefs):
                 t.coefs = [c if abs(c) <= 1e30 else to_f32(c * 1e-9) for c in t.coefs]
             qs = []
             for qi in range(8):
-                xs, cl = gen_point(rng, t, IN_CLASSES)
+                xs, cl = gen_point(rng, t, classes)
                 qs.append((xs, self.MASKS(t, rng), self.KS(t, rng), ["exact"] if small else [], cl))
             cases.append((t, qs))
         return cases
